@@ -611,7 +611,8 @@ theorem finish_ok {p : Prims} {cfg : Config} {autosort : Bool} {ty : String} {d 
     ∃ vs0 vs1 vs2,
       (if cfg.messageHack then messageHack cfg st.vs else .ok st.vs) = .ok vs0 ∧
       ((autosort = false ∧ vs1 = vs0) ∨
-        (autosort = true ∧ ∃ t, Codec.sort cfg.schema p.transform ty (.struct ty vs0) = .ok (.struct t vs1))) ∧
+        (autosort = true ∧ sortable cfg.schema d vs0 = true ∧
+          ∃ t, Codec.sort cfg.schema p.transform ty (.struct ty vs0) = .ok (.struct t vs1))) ∧
       (if cfg.idAutofill then autofillIds p cfg vs1 else .ok vs1) = .ok vs2 ∧
       v = .struct ty vs2 := by
   unfold finish at h
@@ -636,14 +637,15 @@ theorem finish_ok {p : Prims} {cfg : Config} {autosort : Bool} {ty : String} {d 
         · rename_i vs1 hsorted
           split at hsorted
           · cases hsorted
-          · split at hsorted
+          · rename_i hsortable
+            split at hsorted
             · rename_i t vs1' hso
               cases hsorted
               cases h2 : (if cfg.idAutofill then autofillIds p cfg vs1 else .ok vs1) with
               | error e => simp [h2] at h
               | ok vs2 =>
                 simp only [h2, Except.ok.injEq] at h
-                exact ⟨vs0, vs1, vs2, rfl, Or.inr ⟨rfl, t, hso⟩, h2, h.symm⟩
+                exact ⟨vs0, vs1, vs2, rfl, Or.inr ⟨rfl, by simpa using hsortable, t, hso⟩, h2, h.symm⟩
             · cases hsorted
             · cases hsorted
 
@@ -766,5 +768,251 @@ theorem create_ok {p : Prims} {cfg : Config} {autosort embedded : Bool} {desc : 
       | ok st =>
         simp only [hc] at h
         exact ⟨ty, d, fresh, st, rfl, hf, hc, h⟩
+
+/-! ### which keys write to a member -/
+
+theorem classify_member_key {cfg : Config} {ty : String} {d : StructDef} {key : String} {f : Field} {hinted : Bool}
+    (h : classify cfg ty d key = .member f hinted) :
+    (hinted = true ∧ key = fixName f.name) ∨ (hinted = false ∧ key = "_" ++ fixName f.name) := by
+  unfold classify at h
+  split at h
+  · rename_i g hg
+    cases h
+    have := List.find?_some hg
+    left; exact ⟨rfl, (by simpa using this : fixName f.name = key).symm⟩
+  · split at h
+    · rename_i g hg
+      cases h
+      have := List.find?_some hg
+      right; exact ⟨rfl, (by simpa using this : "_" ++ fixName f.name = key).symm⟩
+    · split at h
+      · cases h
+      · split at h <;> cases h
+
+theorem targetOf_keys {cfg : Config} {ty : String} {d : StructDef} {top : Bool} {key n : String}
+    (h : targetOf cfg ty d top key = some n) : key = fixName n ∨ key = "_" ++ fixName n := by
+  unfold targetOf at h
+  split at h
+  · cases h
+  · cases hc : classify cfg ty d key with
+    | member f hinted =>
+      simp only [hc, Option.some.injEq] at h
+      subst h
+      rcases classify_member_key hc with ⟨-, hk⟩ | ⟨-, hk⟩
+      · left; exact hk
+      · right; exact hk
+    | unknown => simp [hc] at h
+    | readOnly => simp [hc] at h
+    | shadow => simp [hc] at h
+
+/-! ### the processed descriptor -/
+
+theorem mem_withNetwork {cfg : Config} {desc : List (String × DVal)} {key : String} {dv : DVal}
+    (hmem : (key, dv) ∈ desc) (hk : key ≠ "network") : (key, dv) ∈ withNetwork cfg desc := by
+  unfold withNetwork setKey
+  split
+  · rw [List.mem_map]
+    refine ⟨(key, dv), hmem, ?_⟩
+    have : ((key, dv).1 == "network") = false := by simpa using hk
+    simp [this]
+  · exact List.mem_append_left _ hmem
+
+theorem withNetwork_has {cfg : Config} {desc : List (String × DVal)} :
+    ("network", DVal.int cfg.networkId) ∈ withNetwork cfg desc := by
+  unfold withNetwork setKey
+  split
+  · rename_i hany
+    rw [List.any_eq_true] at hany
+    obtain ⟨kv, hkv, hk⟩ := hany
+    rw [List.mem_map]
+    exact ⟨kv, hkv, by simp [hk]⟩
+  · simp
+
+theorem withNetwork_keys {cfg : Config} {desc : List (String × DVal)} :
+    (withNetwork cfg desc).map (·.1) = if desc.any (·.1 == "network") then desc.map (·.1) else desc.map (·.1) ++ ["network"] := by
+  unfold withNetwork setKey
+  split
+  · rw [List.map_map]
+    apply List.map_congr_left
+    intro kv _
+    simp only [Function.comp]
+    split
+    · rename_i hk; exact (by simpa using hk : kv.1 = "network").symm
+    · rfl
+  · simp
+
+/-- the processed descriptor is again a dict -/
+theorem withNetwork_nodup {cfg : Config} {desc : List (String × DVal)} (h : (desc.map (·.1)).Nodup) :
+    ((withNetwork cfg desc).map (·.1)).Nodup := by
+  rw [withNetwork_keys]
+  split
+  · exact h
+  · rename_i hany
+    rw [List.nodup_append]
+    refine ⟨h, by simp, ?_⟩
+    intro a ha b hb
+    simp only [List.mem_singleton] at hb
+    subst hb
+    intro e; subst e
+    apply hany
+    rw [List.any_eq_true]
+    rw [List.mem_map] at ha
+    obtain ⟨kv, hkv, hk⟩ := ha
+    exact ⟨kv, hkv, by simp [hk]⟩
+
+theorem find_setNetwork (l : List (String × DVal)) (v : DVal) {k : String} (hk : k ≠ "network") :
+    ((l.map fun kv => if kv.1 == "network" then ("network", v) else kv).find? (·.1 == k)).map (·.2) =
+      (l.find? (·.1 == k)).map (·.2) := by
+  induction l with
+  | nil => rfl
+  | cons a rest ih =>
+    simp only [List.map_cons, List.find?_cons]
+    by_cases ha : (a.1 == "network") = true
+    · have : a.1 = "network" := by simpa using ha
+      have h1 : (("network", v).1 == k) = false := by
+        simp only [beq_eq_false_iff_ne, ne_eq]; exact fun e => hk e.symm
+      have h2 : (a.1 == k) = false := by
+        rw [this]; simp only [beq_eq_false_iff_ne, ne_eq]; exact fun e => hk e.symm
+      simp only [ha, if_true, h1, h2]
+      exact ih
+    · simp only [ha, Bool.false_eq_true, if_false]
+      cases hak : a.1 == k
+      · simp only []; exact ih
+      · rfl
+
+theorem lookupKey_withNetwork {cfg : Config} {desc : List (String × DVal)} {k : String} (hk : k ≠ "network") :
+    lookupKey (withNetwork cfg desc) k = lookupKey desc k := by
+  unfold withNetwork setKey lookupKey
+  split
+  · exact find_setNetwork desc _ hk
+  · rw [List.find?_append]
+    have : List.find? (fun x => x.1 == k) [("network", DVal.int cfg.networkId)] = none := by
+      simp only [List.find?_cons, List.find?_nil]
+      have : ("network" == k) = false := by simp only [beq_eq_false_iff_ne, ne_eq]; exact fun e => hk e.symm
+      simp [this]
+    rw [this]
+    simp
+
+/-- splitting a dict at one of its entries: no other entry has that key -/
+theorem nodup_split_keys {β : Type} {l pre post : List (String × β)} {k : String} {x : β}
+    (hnd : (l.map (·.1)).Nodup) (hs : l = pre ++ (k, x) :: post) : ∀ kv ∈ pre ++ post, kv.1 ≠ k := by
+  subst hs
+  simp only [List.map_append, List.map_cons] at hnd
+  rw [List.nodup_append] at hnd
+  obtain ⟨-, h2, h3⟩ := hnd
+  simp only [List.nodup_cons] at h2
+  intro kv hkv
+  rcases List.mem_append.1 hkv with h | h
+  · intro e
+    exact h3 kv.1 (List.mem_map_of_mem h) k (by simp) e
+  · intro e
+    exact h2.1 (e ▸ List.mem_map_of_mem h)
+
+/-! ### constructor constants -/
+
+theorem get_assignAll_not_mem (vs inits : List (String × Val)) (n : String) (h : n ∉ inits.map (·.1)) :
+    Val.get (assignAll vs inits) n = Val.get vs n := by
+  induction inits generalizing vs with
+  | nil => rfl
+  | cons a rest ih =>
+    obtain ⟨m, v⟩ := a
+    simp only [List.map_cons, List.mem_cons, not_or] at h
+    simp only [assignAll]
+    rw [ih _ h.2, get_assign_ne _ _ _ _ h.1]
+
+theorem get_assignAll_mem (vs inits : List (String × Val)) (n : String) (v : Val) (hnd : (inits.map (·.1)).Nodup)
+    (hin : (n, v) ∈ inits) (hmem : n ∈ vs.map (·.1)) : Val.get (assignAll vs inits) n = some v := by
+  induction inits generalizing vs with
+  | nil => cases hin
+  | cons a rest ih =>
+    obtain ⟨m, w⟩ := a
+    simp only [List.map_cons, List.nodup_cons] at hnd
+    simp only [assignAll]
+    rcases List.mem_cons.1 hin with heq | hin'
+    · cases heq
+      rw [get_assignAll_not_mem _ _ _ hnd.1, get_assign_eq _ _ _ hmem]
+    · exact ih _ hnd.2 hin' (by rw [names_assign]; exact hmem)
+
+/-- a fresh instance of a concrete type holds the constants of its type in the discriminator members -/
+theorem freshMembers_constants {S : Schema} {ty : String} {d : StructDef} {fresh : List (String × Val)}
+    (hfind : S.find ty = some (.struct d)) (h : freshMembers S ty = .ok fresh)
+    (hnd : ((initializers S d).map (·.1)).Nodup) {n : String} {v : Val} (hin : (n, v) ∈ initializers S d)
+    (hmem : n ∈ (carrying d).map (·.name)) : Val.get fresh n = some v := by
+  unfold freshMembers defaultOf defaultFuel at h
+  have e : defaultN S (S.length + 2) ty = defaultTypeStep S (defaultN S (S.length + 1)) ty := rfl
+  rw [e] at h
+  simp only [defaultTypeStep, hfind, Except.ok.injEq] at h
+  subst h
+  apply get_assignAll_mem _ _ _ _ hnd hin
+  simpa [List.map_map, Function.comp] using hmem
+
+/-! ### coercions that the rejection theorems need -/
+
+theorem coerce_int_eq (cfg : Config) (top hinted : Bool) (slot : Slot) (i : Int) :
+    coerce cfg top hinted slot (.int i) = coerceAtom cfg top hinted slot (.int i) := by
+  simp [coerce]
+
+theorem coerce_str_eq (cfg : Config) (top hinted : Bool) (slot : Slot) (s : String) :
+    coerce cfg top hinted slot (.str s) = coerceAtom cfg top hinted slot (.str s) := by
+  simp [coerce]
+
+theorem coerce_bytes_eq (cfg : Config) (top hinted : Bool) (slot : Slot) (b : Bytes) :
+    coerce cfg top hinted slot (.bytes b) = coerceAtom cfg top hinted slot (.bytes b) := by
+  simp [coerce]
+
+theorem canonicalEnum_subset (seen ms : List (String × Int)) : ∀ e ∈ canonicalEnum seen ms, e ∈ ms := by
+  induction ms generalizing seen with
+  | nil => intro e he; simp [canonicalEnum] at he
+  | cons m rest ih =>
+    obtain ⟨n, v⟩ := m
+    intro e he
+    simp only [canonicalEnum] at he
+    split at he
+    · exact List.mem_cons_of_mem _ (ih _ e he)
+    · rcases List.mem_cons.1 he with rfl | he'
+      · exact List.mem_cons_self
+      · exact List.mem_cons_of_mem _ (ih _ e he')
+
+theorem lookupLast_none {table : List (String × Int)} {s : String} (h : ∀ e ∈ table, e.1 ≠ s) :
+    lookupLast table s = none := by
+  unfold lookupLast
+  rw [Option.map_eq_none_iff, List.find?_eq_none]
+  intro e he
+  have := h e (List.mem_reverse.1 he)
+  simpa using this
+
+/-- no member is called `s` in lower case: the enum parser has no entry for `s` -/
+theorem nameTable_enum_none {ms : List (String × Int)} {s : String} (h : ∀ m ∈ ms, m.1.toLower ≠ s) :
+    lookupLast (nameTable false ms) s = none := by
+  apply lookupLast_none
+  intro e he
+  simp only [nameTable, Bool.false_eq_true, if_false, List.mem_map] at he
+  obtain ⟨m, hm, rfl⟩ := he
+  exact h m (canonicalEnum_subset [] ms m hm)
+
+theorem nameTable_flags_none {ms : List (String × Int)} {s : String} (h : ∀ m ∈ ms, m.1.toLower ≠ s) (hnone : s ≠ "none") :
+    lookupLast (nameTable true ms) s = none := by
+  apply lookupLast_none
+  intro e he
+  simp only [nameTable, if_true, List.mem_append, List.mem_map, List.mem_filter, List.mem_singleton] at he
+  rcases he with ⟨m, ⟨hm, -⟩, rfl⟩ | rfl
+  · exact h m hm
+  · exact fun e => hnone e.symm
+
+theorem flagsByName_error {ty : String} {table : List (String × Int)} {parts : List String}
+    (h : ∃ part ∈ parts, lookupLast table part = none) : ∃ e, flagsByName ty table parts = .error e := by
+  induction parts with
+  | nil => obtain ⟨_, hp, _⟩ := h; cases hp
+  | cons q rest ih =>
+    simp only [flagsByName]
+    cases hq : lookupLast table q with
+    | none => exact ⟨_, rfl⟩
+    | some v =>
+      obtain ⟨part, hp, hl⟩ := h
+      rcases List.mem_cons.1 hp with rfl | hp'
+      · rw [hq] at hl; cases hl
+      · obtain ⟨e, he⟩ := ih ⟨part, hp', hl⟩
+        simp only [he]
+        exact ⟨e, rfl⟩
 
 end SymbolVerif.Sdk.Descriptor
